@@ -602,7 +602,11 @@ class Ev:
             if kind == "classmethod":
                 return FuncV(oref, bound=ClsV(obj.cls))
             if kind == "classattr":
-                cv = self.eval(f, {"__qual__": f"{owner}.<classbody>"}, omod)
+                ck = ("classattr", owner, name)
+                if ck not in self.cache:
+                    # evaluated once, when the class body runs: every instance sees the same object
+                    self.cache[ck] = self.eval(f, {"__qual__": f"{owner}.<classbody>"}, omod)
+                cv = self.cache[ck]
                 if isinstance(cv, PropertyV):
                     return self.call(cv.fget, [obj], {}, node, mod)       # name = property(getter): a property like any other
                 if isinstance(cv, StaticV):
@@ -2457,6 +2461,26 @@ def lib_list_misc(name):
 
 
 def lib_zip(ev, a, k, n, mod):
+    if any(hasattr(x, "sym_next") for x in a):
+        # a cursor among the arguments: items are pulled left to right, round by round; the round that finds an argument
+        # exhausted has already consumed one item from every argument to its left (zip(fp, range(n)) reads n + 1 lines)
+        its = [x if hasattr(x, "sym_next") else iter(ev.iterate(x, n, mod)) for x in a]
+        rows = []
+        while True:
+            row = []
+            try:
+                for it in its:
+                    row.append(it.sym_next(ev) if hasattr(it, "sym_next") else next(it))
+            except StopIteration:
+                break
+            except RaisedV as e:
+                if e.exc_name == "StopIteration":
+                    break
+                raise
+            rows.append(Tup(row))
+            if len(rows) > 100000:
+                raise ev.err("zip folding bound exceeded", n, mod)
+        return Tup(rows, "list")
     out = Tup([Tup(t) for t in zip(*[ev.iterate(x, n, mod) for x in a])], "list")
     summarised = [x for x in a if getattr(x, "elementwise_seq", False) or getattr(x, "elementwise", False)]
     if summarised and len(out.items) == 1:
@@ -3754,6 +3778,20 @@ def lib_hasattr(ev, a, k, n, mod):
 
 
 LIB["hasattr"] = lib_hasattr
+
+
+def lib_chainmap(ev, a, k, n, mod):
+    """collections.ChainMap(m1, m2, ...): look-ups find the FIRST mapping that has the key"""
+    out = DictV()
+    for m_ in reversed(a):
+        if not isinstance(m_, DictV):
+            raise ev.err("ChainMap of something that is not a constant-key dict", n, mod)
+        out.d.update(m_.d)
+    out.readonly = True
+    return out
+
+
+LIB["collections.ChainMap"] = lib_chainmap
 for _nm, _op in (("equal", ast.Eq), ("not_equal", ast.NotEq), ("less", ast.Lt), ("less_equal", ast.LtE), ("greater", ast.Gt), ("greater_equal", ast.GtE)):
     LIB[f"numpy.{_nm}"] = (lambda opc: (lambda ev, a, k, n, mod: ev.compare(opc(), a[0], a[1], n, mod)))(_op)
 
